@@ -58,7 +58,7 @@ def main():
             jobs.append((bid, f'{root}/patch.diff', own_of or prop))
     bad = 0
     expected = {}
-    with ThreadPoolExecutor(8) as ex:
+    with ThreadPoolExecutor(int(os.environ.get("AEIC_VERIF_JOBS", "8"))) as ex:
         for bid, prop, res, err in ex.map(lambda j: run_one(*j, own), jobs):
             if isinstance(res, str):
                 print(f'{bid:12s} {prop} {res} {err[:200]}'); bad += 1
